@@ -29,7 +29,7 @@ CONTENT = {
     "C": [("DEPT.M : d", ("DEPT", "M", "", "d")), ("GR.API : g", ("GR", "API", "", "g"))],
     "P": [("BHT.C 35 : t", ("BHT", "C", 35, "t"))],
     "X": [("KEY.u val : k", ("KEY", "u", "val", "k"))],
-    "O": ["free text 1", "second line"],
+    "O": ["free text 1", "# a remark inside the free text", "second line"],
     "A": ["1 5", "2 -9"],
 }
 BOUNDS = {
@@ -42,7 +42,7 @@ ASSUMPTIONS = [
     "the symbolic item (in ~C, ~P or the custom section) has a 3-4 character mnemonic and a value chosen among {'YES','1.2','COMMA','5'}: the steering names are inside the domain",
     "custom section titles begin with a letter other than V/W/C/P/O/A in either case",
 ]
-WITNESS_TARGETS = ["lower-case-title", "title-with-trailing-text", "steering-name-in-foreign-section", "data-section-not-last"]
+WITNESS_TARGETS = ["lower-case-title", "title-with-trailing-text", "steering-name-in-foreign-section", "data-section-not-last", "well-section-without-NULL"]
 EXCLUSIONS = {}
 LETTERS = {"W": "Ww", "C": "Cc", "P": "Pp", "O": "Oo", "A": "Aa", "X": None}
 STEER_VALUES = ["YES", "1.2", "COMMA", "5"]
@@ -104,19 +104,26 @@ def harness(ns, params):
         A(allc(smn, lambda c: z.in_range_c(c, 65, 90)))
         A(z.Not(z.Or(smn.eq_expr("API"), smn.eq_expr("UWI"))))  # their values stay text by design (property C08)
         sval = fresh_int("sval", 0, len(STEER_VALUES) - 1)
-        inputs = {"order": order, "engine": engine, "steer_in": steer_in, "titles": [titles[k] for k in order], "smn": smn, "sval": sval}
+        from symlas.values import fresh_bool
+
+        wnull = fresh_bool("well_has_null")
+        inputs = {"order": order, "engine": engine, "steer_in": steer_in, "titles": [titles[k] for k in order], "smn": smn, "sval": sval, "well_has_null": wnull}
         c = core.ctx()
         c.inputs = inputs
         apply_exclusions(inputs)
         sv = STEER_VALUES[sval.__index__()]
+        wn = bool(wnull)
         lines = ["~Version", "VERS. 2.0 : v", "WRAP. NO : w"]
         for k in order:
             lines.append(titles[k])
             body = list(CONTENT[k]) if k in ("O", "A") else [ln for ln, _ in CONTENT[k]]
+            if k == "W" and not wn:
+                body = body[:-1]  # a ~Well section without a NULL item
             if k == steer_in:
                 body = body + [concat([smn, ". ", sv, " : x"])]
             lines += body
         core.witness("data-section-not-last", order[-1] != "A")
+        core.witness("well-section-without-NULL", not wn)
         core.witness("steering-name-in-foreign-section", z.Or([smn.eq_expr(n) for n in ("VERS", "WRAP", "NULL", "DLM")]))
         las = ns.las.LASFile()
         try:
@@ -134,7 +141,7 @@ def harness(ns, params):
         obl.append(("section-count", nkeys == 6))
         foundx, xsec = loader._dict_lookup(secs, xkey)
         obl.append(("custom-section-kept-under-its-title", foundx))
-        exp = {"Version": [("VERS", "", 2.0, "v"), ("WRAP", "", "NO", "w")], "Well": [t for _, t in CONTENT["W"]], "Curves": [t for _, t in CONTENT["C"]], "Parameter": [t for _, t in CONTENT["P"]]}
+        exp = {"Version": [("VERS", "", 2.0, "v"), ("WRAP", "", "NO", "w")], "Well": [t for _, t in CONTENT["W"]][: 4 if wn else 3], "Curves": [t for _, t in CONTENT["C"]], "Parameter": [t for _, t in CONTENT["P"]]}
         xexp = [t for _, t in CONTENT["X"]]
         steer_item = (smn, "", sv if steer_in == "C" else _steer_value(sv), "x")  # ~Curves values stay text
         {"C": exp["Curves"], "P": exp["Parameter"], "X": xexp}[steer_in].append(steer_item)
@@ -154,7 +161,7 @@ def harness(ns, params):
         # data rows: two columns, NULL (-9) of the non-index curve -> NaN
         if "Curves" in secs and not isinstance(secs["Curves"], (str, SymStr)):
             cv = list(list.__iter__(secs["Curves"]))
-            want = [[1.0, 2.0], [5.0, float("nan")]]
+            want = [[1.0, 2.0], [5.0, float("nan") if wn else -9.0]]
             ok = len(cv) >= 2
             if ok:
                 for col, w in zip(cv[:2], want):
@@ -197,11 +204,14 @@ def replay(i):
 
     order, engine, steer_in, titles, smn, sval = i["order"], i["engine"], i["steer_in"], i["titles"], i["smn"], i["sval"]
     sv = STEER_VALUES[sval]
+    wn = i.get("well_has_null", True)
     tmap = dict(zip(order, titles))
     lines = ["~Version", "VERS. 2.0 : v", "WRAP. NO : w"]
     for k in order:
         lines.append(tmap[k])
         body = list(CONTENT[k]) if k in ("O", "A") else [ln for ln, _ in CONTENT[k]]
+        if k == "W" and not wn:
+            body = body[:-1]
         if k == steer_in:
             body = body + [smn + ". " + sv + " : x"]
         lines += body
@@ -211,7 +221,7 @@ def replay(i):
     except Exception as e:
         return {"ok": False, "detail": "read raised %r for\n%s" % (e, text), "observed": {"raised": type(e).__name__}}
     problems = []
-    exp = {"Version": [("VERS", "", 2.0, "v"), ("WRAP", "", "NO", "w")], "Well": [t for _, t in CONTENT["W"]], "Curves": [t for _, t in CONTENT["C"]], "Parameter": [t for _, t in CONTENT["P"]],
+    exp = {"Version": [("VERS", "", 2.0, "v"), ("WRAP", "", "NO", "w")], "Well": [t for _, t in CONTENT["W"]][: 4 if wn else 3], "Curves": [t for _, t in CONTENT["C"]], "Parameter": [t for _, t in CONTENT["P"]],
            tmap["X"].strip()[1:]: [t for _, t in CONTENT["X"]]}
     {"C": exp["Curves"], "P": exp["Parameter"], "X": exp[tmap["X"].strip()[1:]]}[steer_in].append((smn, "", sv if steer_in == "C" else _steer_value(sv), "x"))
     if sorted(las.sections.keys()) != sorted(list(exp.keys()) + ["Other"]):
@@ -230,7 +240,7 @@ def replay(i):
         data = [np.asarray(c.data, dtype=float).tolist() for c in las.curves[:2]]
     except Exception as e:
         data = repr(e)
-    want = [[1.0, 2.0], [5.0, float("nan")]]
+    want = [[1.0, 2.0], [5.0, float("nan") if wn else -9.0]]
     if not (isinstance(data, list) and len(data) == 2 and all(len(a) == 2 and all((x == y) or (x != x and y != y) for x, y in zip(a, b)) for a, b in zip(data, want))):
         problems.append("data columns are %r, expected %r" % (data, want))
     return {"ok": not problems, "detail": ("; ".join(problems) + " for file:\n" + text) if problems else "ok", "observed": {"raised": None, "nsections": len(las.sections)}}
